@@ -103,7 +103,7 @@ theorem startsInclude_of_head {w : Str} (h : w.head? ≠ some '#') : startsInclu
   | cons c r =>
     have hc : c ≠ '#' := fun e => h (by simp [e])
     have : ('#' == c) = false := by simpa using fun e : '#' = c => hc e.symm
-    simp [startsInclude, List.isPrefixOf, this]
+    simp [startsInclude, List.isPrefixOf, this, hc]
 
 /-! ### domain keys are no placeholder look-alikes -/
 
